@@ -71,6 +71,9 @@ var translationUnits = []tunit{
 		{"internal/authz/oidc.go", "setSetCookieHeader"},
 		{"internal/authz/oidc.go", "oidcHandler.allowResponse"},
 	}, consts: []string{"internal/authz/oidc.go"}, vars: []tfunc{{"internal/authz/oidc.go", "standardResponseHeaders"}}},
+	{module: "CodeStore", funcs: []tfunc{
+		{"internal/oidc/memory.go", "memoryStore.live"},
+	}},
 }
 
 // Go type -> Lean type
@@ -86,12 +89,19 @@ var typeTable = map[string]string{
 	"*status.Status": "Pb.Status", "codes.Code": "Int", "*structpb.Value": "Pb.Value",
 	"*envoy.DeniedHttpResponse": "Pb.DeniedHttpResponse", "*envoy.OkHttpResponse": "Pb.OkHttpResponse", "*corev3.HeaderValueOption": "Pb.HeaderValueOption",
 	"*corev3.HeaderValue": "Pb.HeaderValue", "*typev3.HttpStatus": "Pb.HttpStatus", "[]*corev3.HeaderValueOption": "List Pb.HeaderValueOption",
+	"*memoryStore": "Pb.MemoryStore", "*session": "Pb.Session",
 	"*envoy.CheckResponse_DeniedResponse": "Pb.CheckResponse_DeniedResponse", "*envoy.CheckResponse_OkResponse": "Pb.CheckResponse_OkResponse",
 }
 
 var zeroTable = map[string]string{
 	"Str": "[]", "Int": "0", "Bool": "false", "List Str": "[]", "Go.Map": "Go.Map.empty", "Go.Error": "{}",
 	"Pb.CheckResponse": "{ isNil := true }", "Pb.Handler": "{ isNil := true }",
+}
+
+// Go types of struct fields read by the translated functions (go/ast only: no type checker)
+var fieldTypes = map[string]string{
+	"sessions": "map[string]*session", "absoluteSessionTimeout": "time.Duration", "idleSessionTimeout": "time.Duration",
+	"added": "time.Time", "accessed": "time.Time",
 }
 
 // gRPC status codes (google.golang.org/grpc/codes)
@@ -226,6 +236,16 @@ func (c *tctx) countUses(n ast.Node) {
 		if s, ok := m.(ast.Stmt); ok && c.isLogStmt(s) {
 			return false
 		}
+		if call, ok := m.(*ast.CallExpr); ok {
+			if id, ok := call.Fun.(*ast.Ident); ok && id.Name == "delete" && len(call.Args) == 2 {
+				if sel, ok := call.Args[0].(*ast.SelectorExpr); ok {
+					if pv, ok := sel.X.(*ast.Ident); ok {
+						c.assigned[pv.Name] = true
+						c.fieldWritten[pv.Name] = true
+					}
+				}
+			}
+		}
 		if as, ok := m.(*ast.AssignStmt); ok && as.Tok == token.ASSIGN {
 			for _, l := range as.Lhs {
 				if id, ok := l.(*ast.Ident); ok {
@@ -331,6 +351,9 @@ func (c *tctx) goType(e ast.Expr) string {
 		if c.goType(x.X) == "string" {
 			return "byte"
 		}
+		if t := c.goType(x.X); strings.HasPrefix(t, "map[string]*") {
+			return t[len("map[string]"):]
+		}
 	case *ast.CompositeLit:
 		if x.Type != nil {
 			return typeStr(x.Type)
@@ -341,6 +364,9 @@ func (c *tctx) goType(e ast.Expr) string {
 		}
 		if stringMembers[x.Sel.Name] {
 			return "string"
+		}
+		if t, ok := fieldTypes[x.Sel.Name]; ok {
+			return t
 		}
 	case *ast.BinaryExpr:
 		switch x.Op {
@@ -492,6 +518,9 @@ func (c *tctx) expr(e ast.Expr) string {
 	case *ast.IndexExpr:
 		t := c.goType(x.X)
 		switch {
+		case strings.HasPrefix(t, "map[string]*"):
+			// a map of pointers: the zero value is the nil pointer
+			return "(Go.MapOf.get " + c.expr(x.X) + " " + c.expr(x.Index) + " { isNil := true })"
 		case strings.HasPrefix(t, "map["):
 			return "(Go.Map.get " + c.expr(x.X) + " " + c.expr(x.Index) + ")"
 		case strings.HasPrefix(t, "[]"):
@@ -663,8 +692,14 @@ func (c *tctx) call(x *ast.CallExpr) string {
 		}
 		if f.Sel.Name == "Now" && len(x.Args) == 0 {
 			if inner, ok := f.X.(*ast.SelectorExpr); ok && inner.Sel.Name == "clock" {
+				if c.goType(inner.X) == "*memoryStore" {
+					return "(← Pb.storeClockNow env " + c.expr(inner.X) + ")"
+				}
 				return "(← Pb.clockNow env " + c.expr(inner.X) + ")"
 			}
+		}
+		if f.Sel.Name == "Add" && len(x.Args) == 1 && c.goType(f.X) == "time.Time" {
+			return "(Go.Time.add " + c.expr(f.X) + " " + c.expr(x.Args[0]) + ")"
 		}
 		if f.Sel.Name == "Before" && len(x.Args) == 1 {
 			return "(Go.Time.before " + c.expr(f.X) + " " + c.expr(x.Args[0]) + ")"
@@ -858,6 +893,16 @@ func (c *tctx) stmt(o *out, ind int, s ast.Stmt) {
 		if call, ok := x.X.(*ast.CallExpr); ok {
 			if c.builderWrite(o, ind, call) {
 				return
+			}
+			// delete(p.F, k): a write to a map held in a field of a pointer variable
+			if id, ok := call.Fun.(*ast.Ident); ok && id.Name == "delete" && len(call.Args) == 2 {
+				if sel, ok := call.Args[0].(*ast.SelectorExpr); ok {
+					if pv, ok := sel.X.(*ast.Ident); ok && c.isLocal(pv.Name) {
+						v := lname(pv.Name)
+						o.line(ind, v+" := { (← Go.derefNil ("+v+").isNil "+v+") with "+lname(sel.Sel.Name)+" := Go.MapOf.delete "+c.expr(sel)+" "+c.expr(call.Args[1])+" }")
+						return
+					}
+				}
 			}
 		}
 		fail(s, "expression statement outside the translated subset")
@@ -1317,6 +1362,7 @@ func translateFunc(all map[string]*ast.FuncDecl, consts map[string]bool, fd *ast
 	var paramTypes = map[string]string{}
 	if fd.Recv != nil && len(fd.Recv.List) == 1 && len(fd.Recv.List[0].Names) == 1 {
 		paramOrder = append(paramOrder, fd.Recv.List[0].Names[0].Name)
+		paramTypes[fd.Recv.List[0].Names[0].Name] = typeTable[typeStr(fd.Recv.List[0].Type)]
 	}
 	for _, p := range fd.Type.Params.List {
 		for _, nm := range p.Names {
